@@ -204,6 +204,25 @@ def run_history(case):
             if graphm.snapshot(pool[j]) != snap_j:
                 f.append(('setop-mutates-operand', lab)); return f
             _agree(pool[i], models_[i], lab, f)
+        elif k == 'query':
+            # queries are an explicit step (not run after every operation) so that stale derived state between two
+            # mutations would be observable
+            i = op[1] % n
+            M = models_[i]
+            g = pool[i]
+            vs = {t[0] for t in M['triples']} | ({M['top']} if M['top'] is not None else set())
+            edges = [t for t in M['triples'] if t[1] != ':instance' and t[2] in vs]
+            attrs = [t for t in M['triples'] if t[1] != ':instance' and t[2] not in vs]
+            wt = M['top'] if M['top'] is not None else (M['triples'][0][0] if M['triples'] else None)
+            cnt = {}
+            if wt is not None:
+                cnt[wt] = 1
+            for t in edges:
+                cnt[t[2]] = cnt.get(t[2], 0) + 1
+            got = (g.variables(), [tuple(t) for t in g.edges()], [tuple(t) for t in g.attributes()], g.reentrancies(), g.top)
+            want = (vs, edges, attrs, {v: c - 1 for v, c in cnt.items() if c >= 2}, wt)
+            if got != want:
+                f.append(('query-after-setops', '%s: %s, model %s' % (lab, short(got, 300), short(want, 300)))); return f
         elif k == 'top':
             i = op[1] % n
             v = op[2]
@@ -319,13 +338,25 @@ def _random_hist(draw):
     pool = [draw(_graph_json(POOL_TRIPLES)) for _ in range(3)]
     ops = []
     for _ in range(draw(st.integers(1, 8))):
-        k = draw(st.sampled_from(['or', 'sub', 'ior', 'isub', 'top']))
+        k = draw(st.sampled_from(['or', 'sub', 'ior', 'isub', 'top', 'query', 'isub', 'ior']))
         if k in ('or', 'sub'):
             ops.append([k, draw(st.integers(0, 2)), draw(st.integers(0, 2)), draw(st.integers(0, 2))])
         elif k == 'top':
             ops.append([k, draw(st.integers(0, 2)), draw(st.sampled_from(['a', 'b', 'c', None, 'z']))])
+        elif k == 'query':
+            ops.append([k, draw(st.integers(0, 2))])
         else:
             ops.append([k, draw(st.integers(0, 2)), draw(st.integers(0, 2))])
+    if draw(st.integers(0, 2)) == 0:
+        # query / mutate twice / query: derived state must follow the triples even when their number comes back to what it was
+        i, j, k2 = draw(st.integers(0, 2)), draw(st.integers(0, 2)), draw(st.integers(0, 2))
+        if draw(st.booleans()):
+            pat = [['query', i], ['isub', i, j], ['ior', i, k2], ['query', i]]
+        else:
+            d = draw(st.integers(0, 2))
+            pat = [['query', i], ['sub', i, j, d], ['or', d, k2, d], ['query', d]]
+        at = draw(st.integers(0, len(ops)))
+        ops[at:at] = pat
     return {'k': 'h', 'pool': pool, 'ops': ops}
 
 
@@ -356,6 +387,9 @@ def _machine(report):
 
         @rule(i=st.integers(0, 2), v=st.sampled_from(['a', 'b', 'c', None, 'z']))
         def set_top(self, i, v): self.case['ops'].append(['top', i, v])
+
+        @rule(i=st.integers(0, 2))
+        def query(self, i): self.case['ops'].append(['query', i])
 
         def teardown(self):
             if self.case is not None and self.case['ops']:
